@@ -153,7 +153,10 @@ def rtBuiltin (f : Name) (pos : List Rt) (kw : List (Name × Rt)) : Option (List
     | [.int] => some [.int] | [.real] => some [.real] | [.cplx] => some [.real]
     | [.arr _] => some [.arr false] | [.user i] => some [.user i]
     | _ => some [.err]
-  else if f = "<builtin>array" then some [.arr false]
+  else if f = "<builtin>array" then
+    match rtBind ["n"] pos kw with
+    | [.int] => some [.arr false] | [.bool] => some [.arr false]    -- `numpy.empty(n)` wants an integer
+    | _ => some [.err]
   else none
 
 end Dagrt.Kinds
